@@ -45,26 +45,23 @@ class NeurolucidaAscToSwc(Transform[str, Tree]):
         ndata = {n: [] for n in names.cols()}
 
         next_id = 0
-        typee = [types.undefined]
 
-        def walk_ast(root: ASTNode, pid: int = -1) -> None:
-            nonlocal next_id, typee
+        # explicit stack: a branch of n points is an AST chain n levels deep
+        stack: list[tuple[ASTNode, int, int]] = [(ast, -1, types.undefined)]
+        while len(stack) != 0:
+            root, pid, typee = stack.pop()
             match root.type:
                 case ASTType.ROOT:
-                    for n in root.children:
-                        walk_ast(n)
+                    pass
 
                 case ASTType.TREE:
                     match root.value:
                         case "AXON":
-                            typee.append(types.axon)
+                            typee = types.axon
                         case "DENDRITE":
-                            typee.append(types.basal_dendrite)
+                            typee = types.basal_dendrite
 
-                    for n in root.children:
-                        walk_ast(n)
-
-                    typee.pop()
+                    pid = -1
 
                 case ASTType.NODE:
                     x, y, z, r = root.value
@@ -72,17 +69,19 @@ class NeurolucidaAscToSwc(Transform[str, Tree]):
                     next_id += 1
 
                     ndata[names.id].append(idx)
-                    ndata[names.type].append(typee[-1])
+                    ndata[names.type].append(typee)
                     ndata[names.x].append(x)
                     ndata[names.y].append(y)
                     ndata[names.z].append(z)
                     ndata[names.r].append(r)
                     ndata[names.pid].append(pid)
+                    pid = idx
 
-                    for n in root.children:
-                        walk_ast(n, pid=idx)
+                case _:
+                    continue
 
-        walk_ast(ast)
+            stack.extend((n, pid, typee) for n in reversed(root.children))
+
         tree = Tree(
             next_id,
             source=ast.source,
